@@ -324,6 +324,50 @@ pub fn shrink_case(prop: &dyn Prop, case: &Case, v: &Violation, tier: Tier, max_
     (cur, curv, evals)
 }
 
+/// Does a fresh process replaying `case` die (signal / abort)?
+fn dies_in_child(prop: &dyn Prop, case: &Case, v: &Violation, tier: Tier) -> bool {
+    let dir = verif_dir().join("replays");
+    let _ = std::fs::create_dir_all(&dir);
+    let path = dir.join(format!(".shrink-{}-{}.json", prop.id(), std::process::id()));
+    let doc = json!({"property": prop.id(), "seed": 0, "run": 0, "tier": tier.name(), "clause": v.clause, "class": v.class, "message": "", "event_log_digest": "0", "case": case});
+    if std::fs::write(&path, serde_json::to_string(&doc).unwrap()).is_err() {
+        return false;
+    }
+    let exe = match std::env::current_exe() {
+        Ok(e) => e,
+        Err(_) => return false,
+    };
+    let st = Command::new(exe).arg("replay").arg(&path).stdout(Stdio::null()).stderr(Stdio::null()).status();
+    let _ = std::fs::remove_file(&path);
+    match st {
+        Ok(s) => s.code().is_none() || !matches!(s.code(), Some(0 | 1 | 2)),
+        Err(_) => false,
+    }
+}
+
+/// Shrinking for cases that kill the process: every candidate is replayed in a child
+pub fn shrink_crash(prop: &dyn Prop, case: &Case, v: &Violation, tier: Tier, max_evals: u64) -> Case {
+    if !dies_in_child(prop, case, v, tier) {
+        return case.clone(); // not reproducible in isolation: keep the generated case
+    }
+    let mut cur = case.clone();
+    let mut evals = 0;
+    'outer: loop {
+        for cand in prop.shrink(&cur) {
+            if evals >= max_evals {
+                break 'outer;
+            }
+            evals += 1;
+            if dies_in_child(prop, &cand, v, tier) {
+                cur = cand;
+                continue 'outer;
+            }
+        }
+        break;
+    }
+    cur
+}
+
 pub fn write_replay(prop: &str, seed: u64, run: u64, case: &Case, v: &Violation, tier: Tier, digest: u64) -> String {
     let dir = verif_dir().join("replays");
     let _ = std::fs::create_dir_all(&dir);
